@@ -56,11 +56,25 @@ func init() {
 
 // C19 durations: n*100ms survives NewDurationType -> text -> GetTimeDuration exactly (integer encoding).
 func VH_c19_duration() {
-	sign := verifrt.ShardChoice("sign", 2)
-	n := verifrt.I64("n")
-	// below 3277 days (the range in which the period library keeps days, hours, minutes, seconds)
+	// below 3277 days (the range in which the period library keeps days, hours, minutes, seconds), split at
+	// 3277 hours (where the library switches from hours to days) and into sub-ranges of the day regime; one
+	// (sign, range) case per worker keeps each integer query small
+	const hoursRegime = int64(3277) * 36000
 	max := int64(3277) * 24 * 36000
-	verifrt.Assume(verifrt.All(n >= 0, n < max))
+	R := verifrt.Param("ranges", 7)
+	cs := verifrt.ShardChoice("case", 2*(R+1))
+	sign, rg := cs%2, cs/2
+	n := verifrt.I64("n")
+	lo, hi := int64(0), hoursRegime
+	if rg > 0 {
+		w := (max - hoursRegime + int64(R) - 1) / int64(R)
+		lo = hoursRegime + int64(rg-1)*w
+		hi = lo + w
+		if hi > max {
+			hi = max
+		}
+	}
+	verifrt.Assume(verifrt.All(n >= lo, n < hi))
 	d := time.Duration(n) * 100 * time.Millisecond
 	if sign == 1 {
 		d = -d
